@@ -678,6 +678,7 @@ func TestVerifC29(t *testing.T) {
 	ctx.engines[1] = ag_NewEngine(true, 50000000)
 	defer ctx.engines[0].Close()
 	defer ctx.engines[1].Close()
+	r.Set("rule", "one case = one generated expression evaluated as an instant query on one stored input vector (pair); the tiers list the enumerated products. distinct_nontrivial = distinct (expression form, non-empty result or error) combinations; distinct_outcomes = distinct result vectors/scalars/errors; an empty result is trivial")
 	for _, a := range c29Assumptions {
 		r.Assume(a)
 	}
@@ -733,7 +734,6 @@ func TestVerifC29(t *testing.T) {
 		t.Fatalf("harness failure: %v", err)
 	}
 	r.Count("evaluations", int(ctx.n.Load()))
-	r.Set("rule", "one case = one generated expression evaluated as an instant query on one stored input vector (pair); the tiers list the enumerated products. distinct_nontrivial = distinct (expression form, non-empty result or error) combinations; distinct_outcomes = distinct result vectors/scalars/errors; an empty result is trivial")
 	r.Set("values", "1 2 0 NaN +Inf -Inf")
 	if !r.Expired() && r.Get("evaluations") != total {
 		t.Fatalf("enumeration incomplete: %d of %d cases", r.Get("evaluations"), total)
